@@ -347,3 +347,23 @@ Proof.
   split; [vm_compute; reflexivity|]. split; [vm_compute; reflexivity|]. split; [vm_compute; reflexivity|].
   eexists; eexists. split; [vm_compute; reflexivity|]. vm_compute. split; reflexivity.
 Qed.
+
+
+(* nested loops with a break in the INNER loop (for c in d.compscans(): for s in d.scans(): ...; break): on the example
+   the inner generator leaves _selection['scans'] = 0 behind, the select() of the next compound scan re-applies it,
+   nothing is left of compound scan 1 and target_indices[0] raises IndexError (the same with the loops the other way
+   round).  With a single outer item (prior selection compscans=1) the outer run completes, but the abandoned inner
+   key survives the final re-select: dumps 7, 8 (scan 3) are selected afterwards instead of 7..11. *)
+Lemma ex_inner_break_facts :
+  iterate_nested_break ex_O WCompscans WScans 0 (init (so ex_O)) = Err EFail
+  /\ iterate_nested_break ex_O WScans WCompscans 0 (init (so ex_O)) = Err EFail
+  /\ (exists s0 ys sf, select (so ex_O) (init (so ex_O)) [("compscans"%string, VScans [SIdx 1])] = Ok s0
+       /\ positions (tk s0) = [7; 8; 9; 10; 11]
+       /\ iterate_nested_break ex_O WCompscans WScans 0 s0 = Ok (ys, sf)
+       /\ map tsummary ys = [(1, [7; 8; 9; 10; 11])] /\ positions (tk sf) = [7; 8]
+       /\ lookup "scans" (sel sf) = Some (VScans [SIdx 3])).
+Proof.
+  split; [vm_compute; reflexivity|]. split; [vm_compute; reflexivity|].
+  eexists; eexists; eexists. split; [vm_compute; reflexivity|]. split; [vm_compute; reflexivity|].
+  split; [vm_compute; reflexivity|]. vm_compute. repeat split; reflexivity.
+Qed.
